@@ -500,6 +500,17 @@ def job(arg):
                 if normal and dmax > 1e-6:
                     out['oracle'].append(('reset-changes-solution', 'System.reset() followed by a second power flow gives bus voltages differing by '
                                           '%.3g from the first solution of the same input data' % dmax))
+            # the same System once more with loads far beyond the transfer capability: whatever the routine then
+            # reports, a reported convergence must again come with the balance of the data now in effect
+            if okr and ss.PQ.n > 0:
+                for i, p0, q0 in zip(list(ss.PQ.idx.v), list(ss.PQ.p0.vin), list(ss.PQ.q0.vin)):
+                    ss.PQ.alter('p0', i, 25.0 * float(p0) + 5.0)
+                    ss.PQ.alter('q0', i, 25.0 * float(q0) + 2.0)
+                oko = solve(ss)
+                cnt('overload-resolve:' + ('reports-convergence' if oko else 'reports-failure'))
+                if oko:
+                    bad, _ = oracle(ss)
+                    out['oracle'] += [(k, '[re-solve after overloading] ' + w) for k, w in bad]
         # metamorphic variant: insertion order, idx type, device base
         if conv and variant is not None:
             s2, bidx2 = build(spec, variant)
